@@ -285,3 +285,23 @@ package asp
 //@   invariant "range l" copied: len(ret) == len(l)
 //@   ensures lists_are_rebuilt [C16 C17]: dyntype(c, pyList) ==> dyntype(result, pyList) && len(unbox(result, pyList)) == len(unbox(c, pyList))
 //@   ensures other_constants_unchanged [C16]: !dyntype(c, pyList) ==> result == c
+
+// ---------------------------------------------------------------------------------------------
+// The globals of a builtin file are frozen AFTER the file has been interpreted (C17)
+//
+// scope.Freeze freezes the values present in the scope at the time of the call, so it must run after the
+// statements of the file have been interpreted — not when the `defer` statement is executed.
+//@ assume func registerBuiltins
+//@ assume func registerSubincludePackage
+//@ assume func setNativeCode
+//@ assume func (interpreter).interpretStatements
+//@ assume func (interpreter).loadBuiltinStatements
+//@ assume func (scope).SetAll
+//@ assume func (scope).Freeze
+//@ func (interpreter).LoadBuiltins
+//@   requires i != nil && i.scope != nil && i.parser != nil
+//@   opt nopanic=off
+//@   opt inline=off
+//@   opt precall=off
+//@   callsite (scope).Freeze only_after_the_file_was_interpreted [C17]: \
+//@      called("(interpreter).interpretStatements") || called("(interpreter).loadBuiltinStatements")
